@@ -3,8 +3,10 @@
 //! for every rayon pool size.
 //!
 //! All twelve partition-creating algorithms are driven through the PUBLIC API (`coupe::Partition`,
-//! `coupe::Grid::rcb`, and – for `coupe::Random`, which needs a `rand::Rng` – the CLI's own
-//! constructor `coupe_tools::parse_algorithm("random,<k>,<seed>")`).
+//! `coupe::Grid::rcb`; `coupe::Random` gets a `rand_pcg::Pcg64` the harness seeds itself, so that
+//! its ids are also compared with the reference sequence `rng.gen_range(0..part_count)` –
+//! signature `random-sequence@random` – and, in the `tools` cases, with the CLI's own constructor
+//! `coupe_tools::parse_algorithm("random,<k>,<seed>")`).
 //!
 //! op (one line; `<Ts>` = comma separated rayon pool sizes the case is run under, `<wt>` = `i`
 //! (weights are decimal `i64`) or `f` (weights are `f64` bit patterns in hex); coordinates are
@@ -318,7 +320,7 @@ impl Case {
             | Case::Mj { parts, .. }
             | Case::Greedy { parts, .. }
             | Case::Kk { parts, .. }
-            | Case::Random { parts, .. } => *parts = *parts * 2 + 3,
+            | Case::Random { parts, .. } => *parts = parts.saturating_mul(2).saturating_add(3),
             Case::Ckk { w, .. } => return Case::Greedy { parts: 7, w: Wts::I(w.clone()) },
         }
         c
@@ -674,6 +676,16 @@ macro_rules! bisect {
     }};
 }
 
+/// `rand_pcg::Pcg64::from_seed` of the decimal seed's bytes, zero-padded to 32 (what
+/// `coupe_tools::parse_algorithm("random,<k>,<seed>")` builds).
+fn random_rng(seed: u64) -> rand_pcg::Pcg64 {
+    use rand::SeedableRng as _;
+    let mut bytes = seed.to_string().into_bytes();
+    bytes.resize(32, 0);
+    let arr: [u8; 32] = bytes.try_into().unwrap();
+    rand_pcg::Pcg64::from_seed(arr)
+}
+
 /// The real implementation on the id array `ids` (fresh ones are pre-filled with `usize::MAX`).
 /// With `twice` the SAME algorithm value is first called on the element-reversed input and a
 /// scratch array (its result is dropped; a panic there is a panic of the case). Runs inside the
@@ -808,23 +820,31 @@ fn call(case: Case, mut ids: Vec<usize>, twice: bool) -> (Ret, Vec<usize>) {
             Ret::Ok
         }
         Case::Random { parts, seed, .. } => {
-            // `coupe::Random` needs a `rand::Rng`; the `rand` crate is not re-exported by coupe,
-            // so the generator comes from the CLI's own constructor (Pcg64 seeded from the string).
-            match coupe_tools::parse_algorithm::<2>(&format!("random,{},{}", parts, seed)) {
-                Err(e) => Ret::Other(format!("parse_algorithm: {}", e)),
-                Ok(mut algo) => {
-                    let problem =
-                        coupe_tools::Problem::<2>::without_mesh(mesh_io::weight::Array::Integers(Vec::new()));
-                    let mut runner = algo.to_runner(&problem);
-                    if twice {
-                        let _ = runner(&mut scratch);
-                    }
-                    match runner(&mut ids) {
-                        Ok(_) => Ret::Ok,
-                        Err(e) => Ret::Other(format!("{}", e)),
-                    }
+            // an rng the harness controls: Pcg64 seeded as the CLI seeds it (the bytes of the decimal
+            // seed, zero-padded), and a second one in the same state for the reference sequence
+            // `gen_range(0..part_count)`, one draw per element in order
+            use rand::Rng as _;
+            let mut algo = coupe::Random { rng: random_rng(seed), part_count: parts };
+            let mut reference = random_rng(seed);
+            if twice {
+                algo.partition(&mut scratch, ()).unwrap();
+                for _ in 0..scratch.len() {
+                    let _ = reference.gen_range(0..parts);
                 }
             }
+            algo.partition(&mut ids, ()).unwrap();
+            let mut ret = Ret::Ok;
+            for (i, &id) in ids.iter().enumerate() {
+                let want = reference.gen_range(0..parts);
+                if id != want {
+                    ret = Ret::Mismatch(format!(
+                        "random-sequence|element {} got id {}, the reference rng.gen_range(0..{}) sequence gives {}",
+                        i, id, parts, want
+                    ));
+                    break;
+                }
+            }
+            ret
         }
     };
     (ret, ids)
@@ -1254,6 +1274,9 @@ fn call_tools(case: Case, mut ids: Vec<usize>) -> Option<(Ret, Vec<usize>)> {
             run::<3>(&format!("kk,{}", parts), None, weights(&w), &mut ids)
         }
         Case::Ckk { tol, w } => run::<2>(&format!("ckk,{}", tol), None, weights(&Wts::I(w)), &mut ids),
+        Case::Random { parts, seed, .. } => {
+            run::<2>(&format!("random,{},{}", parts, seed), None, mesh_io::weight::Array::Integers(Vec::new()), &mut ids)
+        }
         _ => return None,
     };
     Some((ret, ids))
@@ -2226,6 +2249,78 @@ fn corner_stream(ctx: &mut Ctx, ts: &[usize]) {
             let gw = wts(&mut ctx.rng, gw);
             emit(ctx, &Case::Grid { dims: vec![side, side], iter, w: gw }, ts);
         }
+    }
+    // Random: part counts around and beyond 2^32 (a narrowing cast of the count), few elements
+    let random_parts: [usize; 14] = [
+        1 << 32,
+        1 << 33,
+        3 << 32,
+        1 << 40,
+        1 << 63,
+        usize::MAX,
+        (1 << 32) - 1,
+        (1 << 32) + 1,
+        1 << 31,
+        1 << 16,
+        255,
+        256,
+        257,
+        (1 << 48) + (1 << 32),
+    ];
+    for &parts in &random_parts {
+        let n = 1 + ctx.rng.usize(50);
+        ctx.count("corner:random-huge-part-count");
+        let seed = ctx.rng.below(1 << 40);
+        emit(ctx, &Case::Random { parts, n, seed }, ts);
+        let seed = ctx.rng.below(1 << 40);
+        run_op(ctx, &format!("tools {}", Case::Random { parts, n, seed }.format(&[1], None)));
+    }
+    // the same for the partitioners whose cost does not grow with the count (ZCurve: chunk arithmetic
+    // only) or grows linearly and stays cheap (Hilbert: one split per part; MultiJagged: one scheme
+    // leaf per part, 10^6 leaves = 100 MB: thorough only). Greedy and KarmarkarKarp allocate per
+    // part and scan all parts per element: their counts stop at 4099 above.
+    let big: Vec<usize> = if ctx.quick() { vec![100_000] } else { vec![100_000, 1_000_000] };
+    for &parts in &big {
+        for dim in [2usize, 3] {
+            let n = 5 + ctx.rng.usize(60);
+            let pm = *ctx.rng.pick(&POINT_MODES);
+            let wm = *ctx.rng.pick(&WEIGHT_MODES);
+            let pts = gen_points(&mut ctx.rng, dim, n, pm);
+            let w = gen_weights(&mut ctx.rng, n, wm);
+            let one = [*ctx.rng.pick(&[1usize, 2, 3, 16]), 1];
+            ctx.count("corner:huge-part-count");
+            emit(ctx, &Case::Hilbert { dim, parts, order: if dim == 2 { 20 } else { 12 }, pts: pts.clone(), w: as_f(&w) }, &one);
+            ctx.count("corner:huge-part-count");
+            let max_iter = 1 + ctx.rng.usize(3);
+            emit(ctx, &Case::Mj { dim, parts, max_iter, pts: pts.clone(), w: as_f(&w) }, &one[..1]);
+        }
+    }
+    for &parts in &[100_000usize, 1_000_000, 1 << 32, (1 << 32) + 1, 1 << 40, 1 << 63, usize::MAX] {
+        let dim = 2 + ctx.rng.usize(2);
+        let n = 1 + ctx.rng.usize(60);
+        let pm = *ctx.rng.pick(&POINT_MODES);
+        let pts = gen_points(&mut ctx.rng, dim, n, pm);
+        ctx.count("corner:huge-part-count");
+        let order = 1 + ctx.rng.usize(8) as u32;
+        emit(ctx, &Case::ZCurve { dim, parts, order, pts }, ts);
+    }
+    // 2^32, 2^33, 2^40 leaves for the bisections (the recursion only follows non-empty sides)
+    for iter in [31usize, 32, 33, 40] {
+        let dim = 2 + ctx.rng.usize(2);
+        let n = 2 + ctx.rng.usize(40);
+        let pm = *ctx.rng.pick(&POINT_MODES);
+        let wm = *ctx.rng.pick(&WEIGHT_MODES);
+        let pts = gen_points(&mut ctx.rng, dim, n, pm);
+        let w = gen_weights(&mut ctx.rng, n, wm);
+        for rib in [false, true] {
+            ctx.count("corner:huge-part-count");
+            let wv = wts(&mut ctx.rng, w.clone());
+            emit(ctx, &Case::Bisect { rib, dim, iter, tol: 0.05, pts: pts.clone(), w: wv }, ts);
+        }
+        let gw = gen_weights(&mut ctx.rng, 6 * 7, "spread");
+        let gw = wts(&mut ctx.rng, gw);
+        ctx.count("corner:huge-part-count");
+        emit(ctx, &Case::Grid { dims: vec![6, 7], iter, w: gw }, ts);
     }
     // weights at the edge of the types, totals still inside them (the contract's "sums that do not
     // overflow"): i64 near 2^61 (total 5·2^60 < 2^63), f64 near 2^52 (total 1.75·2^52 < 2^53, exact)
